@@ -38,26 +38,28 @@ PROPS = {
     "C01": P(GS, SOLVER2 + SOLVER3, "other",
              "Theorems (exact real arithmetic over the generated kernels): t_ana is the analytic time, its derivatives are the "
              "analytic gradient, the spherical operator reproduces the analytic time on analytic neighbours, the plane-wave "
-             "operators are exact on plane waves; the global tolerances (near field to rounding, 1.5-2.5% far field in 2D, one "
+             "operators are exact on plane waves; the off-node 2D source initialisation in a homogeneous medium writes exactly slowness x distance at a characterised set of nodes (InitExact); the global tolerances (near field to rounding, 1.5-2.5% far field in 2D, one "
              "cell in 3D) are examined on the implementation against the analytic distance.", RULE_SOLVE, props="props/C01.v"),
     "C02": P(GS, SOLVER2 + SOLVER3, "other",
              "Theorems: fixed-point edge inequality gives the grid-line upper bound in layered media with the cell registration "
-             "(i,j) <-> nodes i..i+1, j..j+1; the source-cell slowness is slow[min(int(zsa),nz-1),...]. First-order error and "
+             "(i,j) <-> nodes i..i+1, j..j+1; which cells every operator of the 2D and 3D node update reads (sweep_tt_eq); the four copies of the off-node initialisation read mirror/transposed cells of one another (InitSym). First-order error and "
              "refinement are examined against exact solutions (layer stack sum, Fermat two half-spaces, constant-gradient closed form).",
              "layered stack (node source, equal spacings), two half-spaces in every axis orientation with direct/transmitted/head "
              "waves by 1-D Fermat minimisation, constant velocity gradient (closed form), each on grid h and h/2", props="props/C02.v",
              oracle_n=(45, 300)),
     "C03": P(GS, SOLVER2 + SOLVER3, "proof",
              "Theorems: the solver raises ValueError exactly when the source is outside the closed domain (comparisons as "
-             "written, NaN included); result shapes; sweeps never raise a node. Finite/non-negative/below-grid-path/zero-only-at-"
-             "source and the metadata are examined on the implementation on boundary-heavy sources.", RULE_SOLVE, props="props/C03.v"),
+             "written, NaN included); result shapes; sweeps never raise a node; over R every traveltime returned by the 2D and by the 3D solver is >= 0 "
+             "(all spacings; the 3D statement was false before fix 7b708d7), in 2D 0 occurs exactly at the source node, in 3D dichotomy/partial/refutation in the placeholder regime. "
+             "Finite/below-grid-path and the metadata are examined on the implementation on boundary-heavy sources.", RULE_SOLVE, props="props/C03.v"),
     "C04": P(GS, SOLVER2 + SOLVER3, "proof",
              "Theorem (all shapes, every numeric instance incl. binary64 with NaN): at a fixed point of a sweep pass every pair of "
-             "adjacent nodes satisfies T_p <= T_q + d*min(slowness of the cells adjoining the edge). The global lower bound is "
+             "adjacent nodes satisfies T_p <= T_q + d*min(slowness of the cells adjoining the edge); the 4-point operator is never earlier than the "
+             "diagonal neighbour and the 8-point candidate is discarded when earlier than the opposite corner (no-op on cubic cells). The global lower bound is "
              "examined on the implementation.", RULE_SOLVE, props="props/C04.v"),
     "C05": P(GS + ["Vinterp2d", "Vinterp3d"], SOLVER2 + SOLVER3 + VINTERP, "proof",
-             "Theorems over R on the generated kernels: slowness- and length-homogeneity of t_ana, t_anad, delta and the "
-             "interpolators; bit-for-bit power-of-two and 1e-9 general scaling of the whole pipeline are examined on the implementation.",
+             "Theorems over R on the generated kernels: slowness- and length-homogeneity of t_ana, t_anad, delta, of one node update, of the "
+             "2D source initialisation and of the WHOLE solvers fteik2d / fteik3d (placeholder caveat on the reference run); bit-for-bit power-of-two and 1e-9 general scaling of the whole pipeline are examined on the implementation.",
              RULE_SOLVE + "; scale factors 2^k (k=-9..9) and 10^u (u in [-3,3]), slowness or length", props="props/C05.v", api_corr="api"),
     "C06": P(GS + ["Interp2d", "Interp3d", "Vinterp2d", "Vinterp3d"], SOLVER2 + SOLVER3 + INTERP + VINTERP, "proof",
              "Theorems: the kernels receive only (coordinate - origin) and the axes origin + k*spacing, the interpolators are "
@@ -91,7 +93,9 @@ PROPS = {
              "source semantics); gradient vectors are g/|g| or 0. Unit norm, zero at the source, direction and the compiled build's "
              "bit-identity are examined on the implementation.", RULE_SOLVE, props="props/C11.v"),
     "C12": P(GALL, ALLG, "proof",
-             "Theorems: index obligations (f_ok) of the generated kernels hold for all shapes; the public API is run under "
+             "Theorems: index obligations (f_ok: every subscript in range, no negative wrap-around) of the generated kernels hold for all shapes and inputs: "
+             "the WHOLE solvers fteik2d (binary64: 1..2^50 cells per axis, via Flocq) and fteik3d (binary64 unconditional), node updates, passes, gradient "
+             "assembly under the sign invariant, the four interpolators, shrink and both ray tracers (list forms of the ray kernels not covered); the public API is run under "
              "NUMBA_BOUNDSCHECK=1 on boundary-heavy inputs.",
              RULE_SOLVE + "; point evaluation and both ray modes on faces/edges/corners, tiny max_step", props="props/C12.v",
              mode="boundscheck", oracle_n=(25, 200)),
@@ -108,7 +112,7 @@ PROPS = {
              oracle_n=(80, 800)),
     "C15": P(GR, RAYS + INTERP, "proof",
              "Theorems on the generated grid-honouring tracer: bounded number of iterations (vertex budget times free-step budget), "
-             "contract of returned rays, shrink factor in (0,1]. Grid-line vertices, straightness, 'always returned when homogeneous' "
+             "contract of returned rays, shrink factor in [0,1] attained on a face, every interior vertex of a 2D ray on a grid line (R). Straightness, 'always returned when homogeneous' "
              "are examined on the implementation.",
              "models homogeneous/layered/gradient x square and elongated cells x end points on every face/edge/line", props="props/C15.v",
              oracle_n=(50, 400)),
@@ -119,13 +123,16 @@ PROPS = {
              "models x new shapes (up/down, per-axis) x linear/nearest x scalar/per-axis sigma x unit changes", props="props/C16.v",
              api_corr="meta", api_n=(20, 120)),
     "C17": P(["Effects"], [], "proof",
-             "Frame property of a functional model is by construction; the content is observed: random API histories on shared, copied "
+             "Theorems on the effect summary extracted from the API layer (no argument updated in place through any alias, no global rebound, no memoising "
+             "decorator, attributes assigned only by constructors / resample / smooth); the content is observed: random API histories on shared, copied "
              "and deep-copied objects with inputs as list/tuple/F-order/strided/float32, interleaved 2D/3D use and raising calls; "
              "arguments compared before/after, identical calls compared bit-for-bit.",
              "histories of 3..7 operations from {solve, list solve, solve with a bad source, other dimension, call, raytrace, "
              "representation change} on {object, re-built object, copy, deepcopy}", oracle_n=(40, 300), props="props/C17.v"),
     "C18": P(GS + ["Interp2d", "Interp3d"], SOLVER2 + INTERP, "proof",
-             "Theorems: symmetry of the local operators under exchanging axes, interpolator axis-swap equivariance (R). Solver-level "
+             "Theorems (R): symmetry of the 2D local operators under exchanging axes; the four copies of the 2D source-line initialisation are mirror / "
+             "transposition images of one another (InitSym); one 3D node update of the generated code is equivariant under all axis relabellings (Sym3d); "
+             "interpolator axis-swap equivariance. Solver-level "
              "equivariance within the discretisation tolerance is examined on the implementation.",
              RULE_SOLVE + "; all axis permutations and mirrorings", props="props/C18.v"),
     "C19": P(GALL, ALLG, "translation_validation",
